@@ -294,7 +294,7 @@ fn main() -> int {
         set i (+ i 1)
     }
     (println "%(id)s:about to index out of bounds")
-    (print "%(id)s:oob=")
+    (println "%(id)s:oob next")
     (println (at a (+ i 1000)))
     (println "%(id)s:after the out-of-bounds access")
     return 0
@@ -539,7 +539,7 @@ shadow main { assert true }
 SHAPES = [
     (_p_counter, 420, {"glob"}), (_p_strgrow, 300, {"glob"}), (_p_fib, 260, set()), (_p_collatz, 330, {"glob"}),
     (_p_array, 280, {"glob"}), (_p_primes, 350, {"glob"}), (_p_table, 220, set()), (_p_lcg, 1500, {"glob", "big"}),
-    (_p_assert_end, 240, {"glob", "err"}), (_p_oob_end, 200, set()), (_p_evenodd, 210, set()), (_p_gcd, 230, set()),
+    (_p_assert_end, 240, {"glob", "err"}), (_p_oob_end, 200, {"err"}), (_p_evenodd, 210, set()), (_p_gcd, 230, set()),
     (_p_reverse, 270, {"glob"}), (_p_sort, 250, {"glob"}), (_p_depth, 200, {"glob", "err"}),
     (_p_longlines, 420, {"big"}), (_p_assert_nested, 310, {"glob", "err"}), (_p_triangle, 400, set()),
     (_p_ret, 205, {"glob"}),
@@ -836,9 +836,9 @@ def run_round(ctx, st, fl, client_bin, sc, rno, picks, mode, yield_on, n_bin, la
                     died = "rc=%s" % dm.returncode()
                     break
             stuck = None
-            if troubles and not died and dm.alive() and vc.proc_idle(dm.pid, 2.0):
-                # Not a slow machine: the daemon consumes no CPU and all its threads sleep, yet a complete request is unanswered.
-                stuck = vc.status(ddir, 10.0).active_clients()
+            if troubles and not died and dm.alive() and vc.proc_idle(dm.pid):
+                # Not a slow machine: daemon and co-processes consume no CPU and all their threads sleep, yet a complete request is unanswered.
+                stuck = "%s\n%s" % (vc.status(ddir, 10.0).active_clients(), vc.proc_report(dm.pid))
         finally:
             dm.stop()
         # TSan reports of this daemon instance
@@ -866,7 +866,7 @@ def run_round(ctx, st, fl, client_bin, sc, rno, picks, mode, yield_on, n_bin, la
         if not troubles:
             return
         if stuck is not None:
-            _violation(ctx, "session-stuck|daemon-idle", "round %d (%s): %s -- while the daemon was idle (no CPU time over 2 s, all threads "
+            _violation(ctx, "session-stuck|daemon-idle", "round %d (%s): %s -- while the daemon was idle (neither it nor its co-processes consumed CPU time over 6 s, all threads "
                        "sleeping) and reported active_clients=%s: these well-formed requests will never be answered"
                        % (rno, kind, "; ".join(troubles[:4]), stuck))
             return
